@@ -540,11 +540,18 @@ class PhysicalityCheckOfARun(E2Contract):
                 out.append(("loss-minimisation", True, (eqf, ineqf)))
         out.append(("loss-minimisation", False, (True, False)))
         out.append(("loss-minimisation", True, "no-option"))
+        # positivity-involving configurations with TWO sample sizes: the estimates of the second (last) size are fixed physical states, those of
+        # the first symbolic - a violation at a non-last sample size must fail the check as well
+        out.append(("loss-minimisation", True, (False, True), "two-sizes"))
+        out.append(("projected-linear", True, None, "two-sizes"))
         return out
 
     def inputs(self, W, cfg, mk):
-        est, para, flags = cfg
+        est, para, flags = cfg[:3]
         nv = 3 if para else 4
+        if len(cfg) > 3:
+            vs = [[mk.array(f"v{r}0_", nv), W.np.zeros(nv, dtype=W.np.float64)] for r in range(2)]
+            return dict(vs=vs, nk=2)
         # stored estimates (1-qubit states), all symbolic: two repetitions x two sample sizes where only equality verdicts are involved,
         # two repetitions x one sample size where positivity verdicts (two opaque eigenvalues each) are involved (path budget)
         heavy = est == "projected-linear" or (est == "loss-minimisation" and flags != "no-option" and flags[1])
@@ -554,7 +561,7 @@ class PhysicalityCheckOfARun(E2Contract):
 
     def sample(self, cfg, names, rng):
         import math
-        est, para, flags = cfg
+        est, para, flags = cfg[:3]
         vals = {}
         # estimates around the boundary of the physical set: Bloch radius 1/sqrt(2) +- delta with delta log-uniform in [1e-12, 1e-3] (minimum
         # eigenvalue about -+delta/sqrt(2): between, below and above the two documented thresholds), trace off by 0 / 1e-9 / 1e-4 with the flag off
@@ -573,7 +580,7 @@ class PhysicalityCheckOfARun(E2Contract):
         return vals
 
     def run(self, W, cfg, inp):
-        est, para, flags = cfg
+        est, para, flags = cfg[:3]
         std = "quara.protocol.qtomography.standard."
         c_sys = make_csys(W, "1q")
         tmpl = W.mod("quara.objects.state").State(c_sys, W.np.array([1, 0, 0, 0], dtype=W.np.float64) / W.np.sqrt(2), is_physicality_required=False,
@@ -621,7 +628,7 @@ class PhysicalityCheckOfARun(E2Contract):
         return dict(verdict=bool(verdict), want=ok, thresholds=[eps_eq, eps_ineq])
 
     def post(self, W, cfg, inp, out):
-        est, para, flags = cfg
+        est, para, flags = cfg[:3]
         atol = W.mod("quara.settings").Settings.get_atol()
         return [eq("check-fails-iff-a-configured-constraint-is-violated", out["verdict"], out["want"],
                    "the check returns False exactly when some stored estimate (any repetition, any sample size) violates a constraint this estimator configuration enforces"),
